@@ -41,6 +41,12 @@ func (cb *CircuitBreaker) Allow() bool {
 		return true
 	}
 
+	// The decision below is several loads and stores (state, counters); concurrent callers
+	// must not interleave inside it, or a caller that still saw "open" resets the half-open
+	// budget other callers have already used
+	cb.mu.Lock()
+	defer cb.mu.Unlock()
+
 	state := CircuitBreakerState(cb.state.Load())
 
 	switch state {
@@ -69,6 +75,9 @@ func (cb *CircuitBreaker) RecordSuccess() {
 		return
 	}
 
+	cb.mu.Lock()
+	defer cb.mu.Unlock()
+
 	state := CircuitBreakerState(cb.state.Load())
 
 	switch state {
@@ -91,6 +100,9 @@ func (cb *CircuitBreaker) RecordFailure() {
 		return
 	}
 
+	cb.mu.Lock()
+	defer cb.mu.Unlock()
+
 	cb.lastFailureTime.Store(time.Now().UnixNano())
 	failures := cb.failures.Add(1)
 
@@ -112,6 +124,9 @@ func (cb *CircuitBreaker) RecordFailure() {
 }
 
 func (cb *CircuitBreaker) Reset() {
+	cb.mu.Lock()
+	defer cb.mu.Unlock()
+
 	cb.state.Store(int32(CircuitClosed))
 	cb.failures.Store(0)
 	cb.successes.Store(0)
